@@ -5,7 +5,7 @@
 //!   * `DR <id> ce <N> <boxed 0|1> <parse|check> <lo> <hi|-> I <inputs>`: statically typed
 //!     `just('a').map(track).repeated().at_least(lo).at_most(hi).collect_exactly::<[T; N]>()` (or `Box<[_; N]>`)
 //!   * `DR <id> ga <N> 0 <parse|check> 0 - I <inputs>`: `group([just('a').map(track); N])`
-//!   * families `cz` / `gz`: the same two with a ZERO-SIZED tracked item type (`ZTr`)
+//!   * families `cz` / `gz`: the same two with a ZERO-SIZED tracked item type (`ZTr`); `cf` / `gf`: with a 328-byte one (`FatTr`)
 //!   * `DR <id> tk <slice|stream> 0 <parse|check> 0 - I <inputs>`: tracked *tokens* supplied by the caller
 //!     output: `<id>.<k> M created=<c> dropped=<d> returned=<r> ok=<0|1> live=<l> dd=<0|1>` where created/dropped are counted
 //!     when `parse` returns, returned = tracked values inside the output, live/dd after the output has been dropped.
@@ -163,6 +163,18 @@ fn dr_line(toks: &[&str], w: &mut dyn Write) {
             ("cz", 3) => ce::<ZTr, 3>(boxed, check, lo, hi, &s),
             ("cz", 4) => ce::<ZTr, 4>(boxed, check, lo, hi, &s),
             ("cz", 7) => ce::<ZTr, 7>(boxed, check, lo, hi, &s),
+            ("cf", 0) => ce::<FatTr, 0>(boxed, check, lo, hi, &s),
+            ("cf", 1) => ce::<FatTr, 1>(boxed, check, lo, hi, &s),
+            ("cf", 2) => ce::<FatTr, 2>(boxed, check, lo, hi, &s),
+            ("cf", 3) => ce::<FatTr, 3>(boxed, check, lo, hi, &s),
+            ("cf", 4) => ce::<FatTr, 4>(boxed, check, lo, hi, &s),
+            ("cf", 7) => ce::<FatTr, 7>(boxed, check, lo, hi, &s),
+            ("gf", 0) => ga::<FatTr, 0>(check, &s),
+            ("gf", 1) => ga::<FatTr, 1>(check, &s),
+            ("gf", 2) => ga::<FatTr, 2>(check, &s),
+            ("gf", 3) => ga::<FatTr, 3>(check, &s),
+            ("gf", 4) => ga::<FatTr, 4>(check, &s),
+            ("gf", 7) => ga::<FatTr, 7>(check, &s),
             ("ga", 0) => ga::<Tracker, 0>(check, &s),
             ("ga", 1) => ga::<Tracker, 1>(check, &s),
             ("ga", 2) => ga::<Tracker, 2>(check, &s),
